@@ -2612,6 +2612,14 @@ class FnTranslator:
             # operands may have different orientations (row.dot(col)): pair the k-th coefficients
             ocell = lambda k: o.get(k, 0) if o.cols == 1 else o.get(0, k)
             return fold('+', [('bin', '*', ev.get(i, j), ocell(max(i, j)), st) for i, j in cells])
+        if name == 'isIdentity':
+            # Eigen's fuzzy test (within dummy_precision) read in exact arithmetic: every diagonal coefficient 1, every other 0
+            self.rule('eigen: isIdentity() read as the exact test (exact arithmetic)')
+            acc = None
+            for (i, j) in cells:
+                tst = ('bin', '==', ev.get(i, j), ('const', st, 1 if i == j else 0), ('bool',))
+                acc = tst if acc is None else ('bin', '&&', acc, tst, ('bool',))
+            return acc
         if name in ('rows', 'cols', 'size') and not args:
             self.rule('eigen: %s() of a fixed-size (or size-bound) object is a constant' % name)
             v = ev.rows if name == 'rows' else (ev.cols if name == 'cols' else ev.rows * ev.cols)
